@@ -1,7 +1,1432 @@
-//! C06 — not built yet (stub).
+//! C06 — A signature is accepted only for the exact RRset, key and time window.
+//!
+//! A signed RRset and the zone's DNSKEY RRset are served, as raw messages built by the harness'
+//! own encoder and signed with ring over the reference octets, by a scripted upstream `DnsHandle`
+//! to the real `DnssecDnsHandle::with_trust_anchor` (trust anchor = the zone's key). The
+//! validator's clock is `SimTime::current_time()` = the interposed virtual clock, which also
+//! drives `std::time::Instant` (validation cache), so wall and monotonic time move in lock step.
+//! Oracle: `refm::val_ref` — a stateless verdict computed from the served octets and the clock
+//! (RFC 4035 §5.3.1–§5.3.3, RFC 4034 §2.1/§3.1, RFC 1982, RFC 5011 revoke bit).
 
-use crate::core::Check;
+use std::collections::HashMap;
+use std::sync::{Arc, Mutex};
+use std::time::Duration;
+
+use futures_util::future;
+use futures_util::stream;
+use hickory_net::dnssec::DnssecDnsHandle;
+use hickory_net::xfer::{DnsHandle, FirstAnswer};
+use hickory_net::{DnsError, NetError};
+use hickory_proto::dnssec::rdata::DNSSECRData;
+use hickory_proto::dnssec::{Algorithm, Proof, PublicKeyBuf, TrustAnchors};
+use hickory_proto::op::{DnsRequest, DnsRequestOptions, DnsResponse, Query};
+use hickory_proto::rr::{RData, Record, RecordType};
+use proptest::collection::vec;
+use proptest::prelude::*;
+use serde::{Deserialize, Serialize};
+
+use crate::clock;
+use crate::core::{enumerate, prop, CaseResult, Check, Env, Rec, Tier};
+use crate::gen::names::{self, MName, Rel};
+use crate::refm::canon;
+use crate::refm::tbs_ref::{self, RefKey, SigParams, Window};
+use crate::refm::val_ref::{Anchor, Reference, Verdict};
+use crate::refm::dnssec_wire::{self as w, MRdata, RawRr, CLASS_IN, T_DNSKEY, T_RRSIG};
+use crate::sim::SimRt;
+
+// ---------------------------------------------------------------------------------------------
+// keys
+
+#[derive(Clone, Copy, Debug, PartialEq, Eq, Serialize, Deserialize)]
+enum KeyId {
+    /// the repository's fixture key, used with this DNSSEC algorithm number (8, 10, 13, 14, 15)
+    Fixture(u8),
+    /// Ed25519 key derived from this number
+    Seed(u16),
+}
+
+impl KeyId {
+    fn alg(self) -> u8 {
+        match self {
+            KeyId::Fixture(a) => a,
+            KeyId::Seed(_) => tbs_ref::ALG_ED25519,
+        }
+    }
+}
+
+enum KeyRef {
+    Shared(&'static RefKey),
+    Own(RefKey),
+}
+
+impl std::ops::Deref for KeyRef {
+    type Target = RefKey;
+    fn deref(&self) -> &RefKey {
+        match self {
+            KeyRef::Shared(k) => k,
+            KeyRef::Own(k) => k,
+        }
+    }
+}
+
+fn key_of(id: KeyId) -> KeyRef {
+    match id {
+        KeyId::Fixture(a) => KeyRef::Shared(tbs_ref::fixture_key(a)),
+        KeyId::Seed(n) => KeyRef::Own(RefKey::ed25519_from_seed(&tbs_ref::seed32(n as u64))),
+    }
+}
+
+fn key_id() -> impl Strategy<Value = KeyId> {
+    prop_oneof![
+        10 => any::<u16>().prop_map(KeyId::Seed),
+        2 => Just(KeyId::Fixture(tbs_ref::ALG_ED25519)),
+        2 => Just(KeyId::Fixture(tbs_ref::ALG_ECDSAP256)),
+        1 => Just(KeyId::Fixture(tbs_ref::ALG_ECDSAP384)),
+        1 => Just(KeyId::Fixture(tbs_ref::ALG_RSASHA256)),
+        1 => Just(KeyId::Fixture(tbs_ref::ALG_RSASHA512)),
+    ]
+}
+
+// ---------------------------------------------------------------------------------------------
+// scenario = what the zone genuinely publishes
+
+#[derive(Clone, Debug, Serialize, Deserialize)]
+struct Scenario {
+    zone: MName,
+    #[serde(with = "crate::core::hexvec")]
+    owner_rel: Vec<Vec<u8>>,
+    /// the RRset lives at this name outside the zone although the zone's key signs it (RFC 4035
+    /// §5.3.1 bullet 2 is not part of the property text; observed and counted only)
+    foreign_owner: Option<MName>,
+    rdatas: Vec<MRdata>,
+    ttl: u32,
+    orig_extra: u32,
+    rrsig_ttl: u32,
+    dnskey_ttl: u32,
+    signer: KeyId,
+    /// DNSKEY flags of the signing key as published *and* as covered by the key tag
+    signer_flags: u16,
+    /// Some: a separate key-signing key is the trust anchor and signs the DNSKEY RRset;
+    /// None: the signing key itself is the trust anchor
+    ksk: Option<KeyId>,
+    /// further genuine zone keys whose key tag equals the signer's (KeyTrap-style)
+    colliders: u8,
+    colliders_first: bool,
+    /// answer synthesised from a wildcard: RRSIG Labels = zone labels, signed as *.zone
+    wildcard: bool,
+    /// inception = now0 + inc_off, expiration = now0 + exp_off (mod 2^32)
+    inc_off: i64,
+    exp_off: i64,
+    kinc_off: i64,
+    kexp_off: i64,
+    now0: u64,
+    /// upstream is a cache that counts TTLs down (else an authoritative server)
+    upstream_ages_ttl: bool,
+}
+
+const ZONE_LABELS: &[&[u8]] = &[b"a", b"B", b"zone", b"Ex-1", b"COM", b"x\0y"];
+const RDATA_LABELS: &[&[u8]] = &[b"ns1", b"NS2", b"mail", b"Mx", b"example", b"COM", b"a"];
+const OWNER_LABELS: &[&[u8]] = &[b"www", b"A", b"b", b"Host-1", b"_x"];
+
+fn zone_name() -> impl Strategy<Value = MName> {
+    prop_oneof![
+        3 => Just(MName::fq(vec![])),
+        3 => Just(MName::fq(vec![b"example".to_vec()])),
+        2 => Just(MName::fq(vec![b"Zone".to_vec(), b"TEST".to_vec()])),
+        2 => vec(prop::sample::select(ZONE_LABELS).prop_map(|l| l.to_vec()), 1..=2).prop_map(MName::fq),
+    ]
+}
+
+fn lower_if_many(mut rds: Vec<MRdata>) -> Vec<MRdata> {
+    // several members with upper-case RDATA names would run into C05's recorded ordering defect;
+    // that is C05's business, so genuine multi-member sets carry lower-case RDATA names
+    if rds.len() > 1 {
+        for r in rds.iter_mut() {
+            let low = |n: &MName| MName::fq(canon::lower(&n.labels));
+            let new = match &*r {
+                MRdata::Ns(n) => MRdata::Ns(low(n)),
+                MRdata::Mx { pref, exchange } => MRdata::Mx {
+                    pref: *pref,
+                    exchange: low(exchange),
+                },
+                other => other.clone(),
+            };
+            *r = new;
+        }
+        let mut seen: Vec<Vec<u8>> = Vec::new();
+        rds.retain(|r| {
+            let c = r.canonical();
+            if seen.contains(&c) {
+                false
+            } else {
+                seen.push(c);
+                true
+            }
+        });
+    }
+    rds
+}
+
+fn target_rdatas() -> impl Strategy<Value = Vec<MRdata>> {
+    let name = || {
+        vec(prop::sample::select(RDATA_LABELS).prop_map(|l| l.to_vec()), 1..=3).prop_map(MName::fq)
+    };
+    prop_oneof![
+        4 => vec(any::<[u8; 4]>().prop_map(|a| MRdata::A(a.to_vec())), 1..=3),
+        1 => vec(any::<[u8; 16]>().prop_map(|a| MRdata::Aaaa(a.to_vec())), 1..=2),
+        2 => vec(vec(vec(any::<u8>(), 0..6), 1..=2).prop_map(MRdata::Txt), 1..=2),
+        2 => vec(name().prop_map(MRdata::Ns), 1..=3),
+        2 => vec((0u16..3, name()).prop_map(|(pref, exchange)| MRdata::Mx { pref, exchange }), 1..=3),
+    ]
+    .prop_map(lower_if_many)
+}
+
+/// (window length, position of the clock relative to inception) -> (inc_off, exp_off)
+fn window() -> impl Strategy<Value = (i64, i64)> {
+    let len = prop_oneof![
+        2 => 0u32..3,
+        3 => 3u32..120,
+        3 => 120u32..10_000,
+        2 => 10_000u32..3_000_000,
+        1 => 0x7fff_fff0u32..0x7fff_ffff,
+    ];
+    len.prop_flat_map(|len| {
+        let len = len as i64;
+        let pos = prop_oneof![
+            3 => -2i64..=2,
+            3 => (len - 2)..=(len + 2),
+            4 => 0i64..=len.max(0),
+            1 => -3_000_000i64..0,
+            1 => (len + 1)..(len + 3_000_000),
+            1 => prop::sample::select(&[-(1i64 << 31) - 1, -(1i64 << 31), -(1i64 << 31) + 1][..]),
+            1 => prop::sample::select(&[(1i64 << 31) - 1, 1i64 << 31, (1i64 << 31) + 1][..]).prop_map(move |d| len + d),
+        ];
+        pos.prop_map(move |pos| (-pos, len - pos))
+    })
+}
+
+fn now0() -> impl Strategy<Value = u64> {
+    prop_oneof![
+        4 => 1_600_000_000u64..1_900_000_000,
+        2 => ((1u64 << 32) - 20_000)..((1u64 << 32) + 20_000),
+        1 => ((1u64 << 31) - 5_000)..((1u64 << 31) + 5_000),
+        1 => (1u64 << 32)..((1u64 << 32) + 4_000_000),
+    ]
+}
+
+fn scenario() -> impl Strategy<Value = Scenario> {
+    let names = (
+        zone_name(),
+        vec(prop::sample::select(OWNER_LABELS).prop_map(|l| l.to_vec()), 0..=2),
+        prop_oneof![12 => Just(None), 1 => Just(Some(MName::fq(vec![b"www".to_vec(), b"victim".to_vec(), b"invalid".to_vec()])))],
+        target_rdatas(),
+    );
+    let ttls = (
+        prop_oneof![1 => Just(0u32), 4 => 1u32..60, 4 => 60u32..7_200, 1 => any::<u32>()],
+        prop_oneof![2 => Just(0u32), 2 => 1u32..10_000],
+        prop_oneof![1 => Just(0u32), 4 => 1u32..7_200],
+        prop_oneof![4 => 1u32..7_200, 1 => Just(0u32)],
+    );
+    let keys = (
+        key_id(),
+        prop_oneof![
+            24 => Just(256u16),
+            12 => Just(257u16),
+            // genuinely signed by a key that must not be used: no zone bit / revoked
+            1 => Just(0u16),
+            1 => Just(1u16),
+            1 => Just(384u16),
+            1 => Just(385u16),
+            // reserved bits set (RFC 4034 §2.1.1: ignored on receipt)
+            1 => Just(256u16 | 0x0400),
+        ],
+        prop_oneof![3 => Just(None), 1 => key_id().prop_map(Some)],
+        prop_oneof![10 => Just(0u8), 1 => 1u8..=4],
+        any::<bool>(),
+        prop::bool::weighted(0.06),
+    );
+    (names, ttls, keys, window(), window(), now0(), any::<bool>(), prop::bool::weighted(0.85)).prop_map(
+        |((zone, owner_rel, foreign_owner, rdatas), (ttl, orig_extra, rrsig_ttl, dnskey_ttl), (signer, signer_flags, ksk, colliders, colliders_first, wildcard), win, kwin, now0, ages, same_kwin)| {
+            let kwin = if same_kwin { win } else { kwin };
+            let wildcard = wildcard && !owner_rel.is_empty() && foreign_owner.is_none();
+            // a KSK equal to the signer makes no sense
+            let ksk = ksk.filter(|k| *k != signer);
+            Scenario {
+                zone,
+                owner_rel,
+                foreign_owner,
+                rdatas,
+                ttl,
+                orig_extra,
+                rrsig_ttl,
+                dnskey_ttl,
+                signer,
+                signer_flags,
+                ksk,
+                colliders,
+                colliders_first,
+                wildcard,
+                inc_off: win.0,
+                exp_off: win.1,
+                kinc_off: kwin.0,
+                kexp_off: kwin.1,
+                now0,
+                upstream_ages_ttl: ages,
+            }
+        },
+    )
+}
+
+struct Genuine {
+    owner: MName,
+    rtype: u16,
+    /// members, then the RRSIG
+    target: Vec<RawRr>,
+    /// DNSKEYs, then the RRSIG over them
+    keys: Vec<RawRr>,
+    anchor: Anchor,
+    sig: SigParams,
+}
+
+fn off(now0: u64, o: i64) -> u32 {
+    (now0 as i64).wrapping_add(o) as u32
+}
+
+/// an Ed25519 zone key whose key tag equals `tag`, found by choosing reserved flag bits
+fn collider(tag: u16, n: u32) -> Option<(u16, Vec<u8>)> {
+    for s in 0..64u64 {
+        let k = RefKey::ed25519_from_seed(&tbs_ref::seed32(0x1_0000 + (n as u64) * 64 + s));
+        let public = k.dns_public_key();
+        // RFC 4034 Appendix B is a sum of 16-bit words: everything but the flags word is fixed
+        let rest = tbs_ref::dnskey_rdata(0, 3, tbs_ref::ALG_ED25519, &public);
+        let base: u32 = rest.iter().enumerate().map(|(i, b)| if i & 1 == 1 { *b as u32 } else { (*b as u32) << 8 }).sum();
+        for hi in 0..=0xffu16 {
+            for lo in 0..=0x7fu16 {
+                // zone bit set, revoke bit clear, SEP free
+                let flags = (hi << 8) | 0x0100 | lo;
+                let mut ac = base + flags as u32;
+                ac += (ac >> 16) & 0xffff;
+                if (ac & 0xffff) as u16 == tag {
+                    debug_assert_eq!(tbs_ref::key_tag(&tbs_ref::dnskey_rdata(flags, 3, tbs_ref::ALG_ED25519, &public)), tag);
+                    return Some((flags, public));
+                }
+            }
+        }
+    }
+    None
+}
+
+fn build(s: &Scenario) -> Genuine {
+    let owner = match &s.foreign_owner {
+        Some(o) => o.clone(),
+        None => {
+            let mut l = s.owner_rel.clone();
+            l.extend(s.zone.labels.clone());
+            MName::fq(l)
+        }
+    };
+    let rtype = s.rdatas[0].rtype();
+    let signer = key_of(s.signer);
+    let salg = s.signer.alg();
+    let spub = signer.dns_public_key();
+    let skey_rdata = tbs_ref::dnskey_rdata(s.signer_flags, 3, salg, &spub);
+    let stag = tbs_ref::key_tag(&skey_rdata);
+    let labels = if s.wildcard { s.zone.labels.len() } else { tbs_ref::label_count(&owner.labels) } as u8;
+    let sig = SigParams {
+        type_covered: rtype,
+        algorithm: salg,
+        labels,
+        original_ttl: s.ttl.saturating_add(s.orig_extra),
+        expiration: off(s.now0, s.exp_off),
+        inception: off(s.now0, s.inc_off),
+        key_tag: stag,
+        signer: s.zone.clone(),
+    };
+    let canon_rd: Vec<Vec<u8>> = s.rdatas.iter().map(|r| r.canonical()).collect();
+    let data = tbs_ref::signed_data(&owner.labels, CLASS_IN, &sig, canon_rd, true)
+        .expect("labels chosen within the owner")
+        .bytes();
+    let signature = signer.sign(salg, &data);
+    let mut target: Vec<RawRr> = s
+        .rdatas
+        .iter()
+        .map(|r| RawRr {
+            owner: owner.clone(),
+            rtype,
+            class: CLASS_IN,
+            ttl: s.ttl,
+            rdata: r.raw(),
+        })
+        .collect();
+    target.push(RawRr {
+        owner: owner.clone(),
+        rtype: T_RRSIG,
+        class: CLASS_IN,
+        ttl: s.rrsig_ttl,
+        rdata: sig.rdata_wire(&signature),
+    });
+
+    // the apex DNSKEY RRset
+    let mut key_rdatas: Vec<Vec<u8>> = Vec::new();
+    let (anchor_key, anchor_alg, anchor_rdata) = match s.ksk {
+        Some(k) => {
+            let kk = key_of(k);
+            let rd = tbs_ref::dnskey_rdata(257, 3, k.alg(), &kk.dns_public_key());
+            key_rdatas.push(rd.clone());
+            (kk, k.alg(), rd)
+        }
+        None => (key_of(s.signer), salg, skey_rdata.clone()),
+    };
+    let mut coll: Vec<Vec<u8>> = (0..s.colliders as u32)
+        .filter_map(|n| collider(stag, n))
+        .map(|(f, p)| tbs_ref::dnskey_rdata(f, 3, tbs_ref::ALG_ED25519, &p))
+        .collect();
+    if s.colliders_first {
+        key_rdatas.append(&mut coll);
+    }
+    key_rdatas.push(skey_rdata);
+    key_rdatas.append(&mut coll);
+    let ksig = SigParams {
+        type_covered: T_DNSKEY,
+        algorithm: anchor_alg,
+        labels: s.zone.labels.len() as u8,
+        original_ttl: s.dnskey_ttl,
+        expiration: off(s.now0, s.kexp_off),
+        inception: off(s.now0, s.kinc_off),
+        key_tag: tbs_ref::key_tag(&anchor_rdata),
+        signer: s.zone.clone(),
+    };
+    let kdata = tbs_ref::signed_data(&s.zone.labels, CLASS_IN, &ksig, key_rdatas.clone(), true)
+        .expect("labels = zone labels")
+        .bytes();
+    let ksignature = anchor_key.sign(anchor_alg, &kdata);
+    let mut keys: Vec<RawRr> = key_rdatas
+        .into_iter()
+        .map(|rd| RawRr {
+            owner: s.zone.clone(),
+            rtype: T_DNSKEY,
+            class: CLASS_IN,
+            ttl: s.dnskey_ttl,
+            rdata: rd,
+        })
+        .collect();
+    keys.push(RawRr {
+        owner: s.zone.clone(),
+        rtype: T_RRSIG,
+        class: CLASS_IN,
+        ttl: s.dnskey_ttl,
+        rdata: ksig.rdata_wire(&ksignature),
+    });
+    Genuine {
+        owner,
+        rtype,
+        target,
+        keys,
+        anchor: Anchor {
+            alg: anchor_alg,
+            key: anchor_rdata[4..].to_vec(),
+        },
+        sig,
+    }
+}
+
+// ---------------------------------------------------------------------------------------------
+// edits = what an attacker / a broken middle box does to the genuine responses
+
+#[derive(Clone, Debug, PartialEq, Eq, Hash, Serialize, Deserialize)]
+enum Edit {
+    None,
+    // members of the RRset
+    RecOwnerCase(u64),
+    RecOwnerOctet(usize, u8),
+    AllOwnerOctet(usize, u8),
+    RecClass(usize, u16),
+    RecType(usize, u16),
+    RecTtl(usize, u32),
+    RecRdataBit(usize, usize),
+    RecAdd(u8),
+    RecRemove(usize),
+    RecDup(usize),
+    RecReverse,
+    // the RRSIG (field edits are XOR masks, never zero)
+    SigTypeCovered(u16),
+    SigAlg(u8),
+    SigLabels(u8),
+    SigOrigTtl(u32),
+    SigExpiration(u32),
+    SigInception(u32),
+    SigKeyTag(u16),
+    SigSignerCase(u64),
+    SigSignerOctet(usize, u8),
+    SigBit(usize),
+    SigTruncate(usize),
+    SigExtend(u8),
+    SigOwnerCase(u64),
+    SigClass(u16),
+    SigTtl(u32),
+    SigRemove,
+    SigDup,
+    SigGarbageFirst,
+    // the DNSKEY response (`usize` selects the key)
+    KeyFlags(usize, u16),
+    KeyProtocol(usize, u8),
+    KeyAlg(usize, u8),
+    KeyBit(usize, usize),
+    KeyOwnerCase(u64),
+    KeyOwnerOctet(usize, usize, u8),
+    KeyTtl(usize, u32),
+    KeyClass(usize, u16),
+    KeyAddUnrelated(u16),
+    KeyRemove(usize),
+    KeySigBit(usize),
+    KeySigRemove,
+    KeyResponseError,
+    // any bit of the answer section of either response
+    TargetMsgBit(usize),
+    KeyMsgBit(usize),
+}
+
+fn mask16() -> impl Strategy<Value = u16> {
+    prop_oneof![2 => (0u32..16).prop_map(|b| 1u16 << b), 1 => 1u16..=u16::MAX]
+}
+fn mask32() -> impl Strategy<Value = u32> {
+    prop_oneof![2 => (0u32..32).prop_map(|b| 1u32 << b), 1 => 1u32..=u32::MAX]
+}
+fn mask8() -> impl Strategy<Value = u8> {
+    prop_oneof![2 => (0u32..8).prop_map(|b| 1u8 << b), 1 => 1u8..=u8::MAX]
+}
+
+fn edit() -> impl Strategy<Value = Edit> {
+    prop_oneof![3 => target_edit(), 1 => key_edit()]
+}
+
+fn target_edit() -> impl Strategy<Value = Edit> {
+    let u = || any::<usize>();
+    prop_oneof![
+        2 => any::<u64>().prop_map(Edit::RecOwnerCase),
+        2 => (u(), any::<u8>()).prop_map(|(i, b)| Edit::RecOwnerOctet(i, b)),
+        2 => (u(), any::<u8>()).prop_map(|(i, b)| Edit::AllOwnerOctet(i, b)),
+        2 => (u(), mask16()).prop_map(|(i, m)| Edit::RecClass(i, m)),
+        2 => (u(), mask16()).prop_map(|(i, m)| Edit::RecType(i, m)),
+        2 => (u(), prop_oneof![0u32..100, any::<u32>()]).prop_map(|(i, t)| Edit::RecTtl(i, t)),
+        6 => (u(), u()).prop_map(|(i, b)| Edit::RecRdataBit(i, b)),
+        2 => any::<u8>().prop_map(Edit::RecAdd),
+        2 => u().prop_map(Edit::RecRemove),
+        1 => u().prop_map(Edit::RecDup),
+        1 => Just(Edit::RecReverse),
+        2 => mask16().prop_map(Edit::SigTypeCovered),
+        2 => mask8().prop_map(Edit::SigAlg),
+        2 => mask8().prop_map(Edit::SigLabels),
+        3 => mask32().prop_map(Edit::SigOrigTtl),
+        4 => mask32().prop_map(Edit::SigExpiration),
+        4 => mask32().prop_map(Edit::SigInception),
+        2 => mask16().prop_map(Edit::SigKeyTag),
+        2 => any::<u64>().prop_map(Edit::SigSignerCase),
+        2 => (u(), any::<u8>()).prop_map(|(i, b)| Edit::SigSignerOctet(i, b)),
+        6 => u().prop_map(Edit::SigBit),
+        1 => u().prop_map(Edit::SigTruncate),
+        1 => any::<u8>().prop_map(Edit::SigExtend),
+        1 => any::<u64>().prop_map(Edit::SigOwnerCase),
+        1 => mask16().prop_map(Edit::SigClass),
+        1 => any::<u32>().prop_map(Edit::SigTtl),
+        1 => Just(Edit::SigRemove),
+        1 => Just(Edit::SigDup),
+        1 => Just(Edit::SigGarbageFirst),
+        6 => u().prop_map(Edit::TargetMsgBit),
+    ]
+}
+
+fn key_edit() -> impl Strategy<Value = Edit> {
+    let u = || any::<usize>();
+    prop_oneof![
+        4 => (u(), mask16()).prop_map(|(k, m)| Edit::KeyFlags(k, m)),
+        1 => (u(), mask8()).prop_map(|(k, m)| Edit::KeyProtocol(k, m)),
+        2 => (u(), mask8()).prop_map(|(k, m)| Edit::KeyAlg(k, m)),
+        4 => (u(), u()).prop_map(|(k, b)| Edit::KeyBit(k, b)),
+        1 => any::<u64>().prop_map(Edit::KeyOwnerCase),
+        1 => (u(), u(), any::<u8>()).prop_map(|(k, i, b)| Edit::KeyOwnerOctet(k, i, b)),
+        1 => (u(), any::<u32>()).prop_map(|(k, t)| Edit::KeyTtl(k, t)),
+        1 => (u(), mask16()).prop_map(|(k, m)| Edit::KeyClass(k, m)),
+        2 => any::<u16>().prop_map(Edit::KeyAddUnrelated),
+        2 => u().prop_map(Edit::KeyRemove),
+        2 => u().prop_map(Edit::KeySigBit),
+        1 => Just(Edit::KeySigRemove),
+        1 => Just(Edit::KeyResponseError),
+        4 => u().prop_map(Edit::KeyMsgBit),
+    ]
+}
+
+fn set_octet(labels: &[Vec<u8>], i: usize, b: u8) -> Vec<Vec<u8>> {
+    names::apply_rel(labels, &Rel::SetOctet(i, b))
+}
+fn flip_case(labels: &[Vec<u8>], mask: u64) -> Vec<Vec<u8>> {
+    names::apply_rel(labels, &Rel::CaseFlip(mask))
+}
+
+struct Served {
+    target: Vec<RawRr>,
+    keys: Option<Vec<RawRr>>,
+    target_bit: Option<usize>,
+    key_bit: Option<usize>,
+}
+
+fn xor_at(rd: &mut [u8], at: usize, mask: &[u8]) {
+    for (i, m) in mask.iter().enumerate() {
+        rd[at + i] ^= m;
+    }
+}
+
+/// position of the signer name inside RRSIG RDATA is 18; returns (signer labels, length of the
+/// name on the wire)
+fn sig_signer(rd: &[u8]) -> (Vec<Vec<u8>>, usize) {
+    let (l, end) = w::read_name(rd, 18).expect("own RRSIG RDATA");
+    (l, end - 18)
+}
+
+fn apply(g: &Genuine, e: &Edit) -> Served {
+    let mut t = g.target.clone();
+    let mut k = g.keys.clone();
+    let n = t.len() - 1; // members
+    let nk = k.len() - 1; // keys
+    let mut s = Served {
+        target: vec![],
+        keys: None,
+        target_bit: None,
+        key_bit: None,
+    };
+    let mut drop_keys = false;
+    match e {
+        Edit::None => {}
+        Edit::RecOwnerCase(m) => {
+            for r in t[..n].iter_mut() {
+                r.owner = MName::fq(flip_case(&r.owner.labels, *m));
+            }
+        }
+        Edit::RecOwnerOctet(i, b) => {
+            for r in t[..n].iter_mut() {
+                r.owner = MName::fq(set_octet(&r.owner.labels, *i, *b));
+            }
+        }
+        Edit::AllOwnerOctet(i, b) => {
+            for r in t.iter_mut() {
+                r.owner = MName::fq(set_octet(&r.owner.labels, *i, *b));
+            }
+        }
+        Edit::RecClass(i, m) => t[i % n].class ^= m,
+        Edit::RecType(i, m) => t[i % n].rtype ^= m,
+        Edit::RecTtl(i, v) => t[i % n].ttl = *v,
+        Edit::RecRdataBit(i, b) => {
+            let rd = &mut t[i % n].rdata;
+            let b = b % (rd.len() * 8);
+            rd[b / 8] ^= 0x80 >> (b % 8);
+        }
+        Edit::RecAdd(x) => {
+            let mut r = t[0].clone();
+            let added = MName::fq(vec![b"added".to_vec(), vec![b'a' + (*x % 26)]]);
+            r.rdata = match r.rtype {
+                w::T_A => MRdata::A(vec![192, 0, 2, *x]),
+                w::T_AAAA => MRdata::Aaaa(vec![*x; 16]),
+                w::T_TXT => MRdata::Txt(vec![vec![b'+', *x]]),
+                w::T_NS => MRdata::Ns(added),
+                _ => MRdata::Mx { pref: *x as u16, exchange: added },
+            }
+            .raw();
+            t.insert(n, r);
+        }
+        Edit::RecRemove(i) => {
+            t.remove(i % n);
+        }
+        Edit::RecDup(i) => {
+            let r = t[i % n].clone();
+            t.insert(0, r);
+        }
+        Edit::RecReverse => t[..n].reverse(),
+        Edit::SigTypeCovered(m) => xor_at(&mut t[n].rdata, 0, &m.to_be_bytes()),
+        Edit::SigAlg(m) => xor_at(&mut t[n].rdata, 2, &[*m]),
+        Edit::SigLabels(m) => xor_at(&mut t[n].rdata, 3, &[*m]),
+        Edit::SigOrigTtl(m) => xor_at(&mut t[n].rdata, 4, &m.to_be_bytes()),
+        Edit::SigExpiration(m) => xor_at(&mut t[n].rdata, 8, &m.to_be_bytes()),
+        Edit::SigInception(m) => xor_at(&mut t[n].rdata, 12, &m.to_be_bytes()),
+        Edit::SigKeyTag(m) => xor_at(&mut t[n].rdata, 16, &m.to_be_bytes()),
+        Edit::SigSignerCase(_) | Edit::SigSignerOctet(..) => {
+            let rd = t[n].rdata.clone();
+            let (labels, len) = sig_signer(&rd);
+            let new = match e {
+                Edit::SigSignerCase(m) => flip_case(&labels, *m),
+                Edit::SigSignerOctet(i, b) => set_octet(&labels, *i, *b),
+                _ => unreachable!(),
+            };
+            let mut out = rd[..18].to_vec();
+            w::put_name(&mut out, &new, false);
+            out.extend_from_slice(&rd[18 + len..]);
+            t[n].rdata = out;
+        }
+        Edit::SigBit(b) => {
+            let rd = &mut t[n].rdata;
+            let (_, len) = sig_signer(rd);
+            let start = 18 + len;
+            let b = b % ((rd.len() - start) * 8);
+            rd[start + b / 8] ^= 0x80 >> (b % 8);
+        }
+        Edit::SigTruncate(c) => {
+            let rd = &mut t[n].rdata;
+            let (_, len) = sig_signer(rd);
+            let siglen = rd.len() - 18 - len;
+            let cut = 1 + c % siglen;
+            rd.truncate(rd.len() - cut);
+        }
+        Edit::SigExtend(b) => t[n].rdata.push(*b),
+        Edit::SigOwnerCase(m) => t[n].owner = MName::fq(flip_case(&t[n].owner.labels, *m)),
+        Edit::SigClass(m) => t[n].class ^= m,
+        Edit::SigTtl(v) => t[n].ttl = *v,
+        Edit::SigRemove => {
+            t.pop();
+        }
+        Edit::SigDup => {
+            let r = t[n].clone();
+            t.push(r);
+        }
+        Edit::SigGarbageFirst => {
+            let mut r = t[n].clone();
+            let last = r.rdata.len() - 1;
+            r.rdata[last] ^= 0x55;
+            t.insert(n, r);
+        }
+        Edit::KeyFlags(i, m) => xor_at(&mut k[i % nk].rdata, 0, &m.to_be_bytes()),
+        Edit::KeyProtocol(i, m) => xor_at(&mut k[i % nk].rdata, 2, &[*m]),
+        Edit::KeyAlg(i, m) => xor_at(&mut k[i % nk].rdata, 3, &[*m]),
+        Edit::KeyBit(i, b) => {
+            let rd = &mut k[i % nk].rdata;
+            let b = b % ((rd.len() - 4) * 8);
+            rd[4 + b / 8] ^= 0x80 >> (b % 8);
+        }
+        Edit::KeyOwnerCase(m) => {
+            for r in k.iter_mut() {
+                r.owner = MName::fq(flip_case(&r.owner.labels, *m));
+            }
+        }
+        Edit::KeyOwnerOctet(i, o, b) => {
+            let r = &mut k[i % nk];
+            if r.owner.labels.is_empty() {
+                r.owner = MName::fq(vec![vec![*b | 1]]);
+            } else {
+                r.owner = MName::fq(set_octet(&r.owner.labels, *o, *b));
+            }
+        }
+        Edit::KeyTtl(i, v) => k[i % nk].ttl = *v,
+        Edit::KeyClass(i, m) => k[i % nk].class ^= m,
+        Edit::KeyAddUnrelated(seed) => {
+            let other = RefKey::ed25519_from_seed(&tbs_ref::seed32(0x2_0000 + *seed as u64));
+            let mut r = k[0].clone();
+            r.rdata = tbs_ref::dnskey_rdata(256, 3, tbs_ref::ALG_ED25519, &other.dns_public_key());
+            k.insert(nk, r);
+        }
+        Edit::KeyRemove(i) => {
+            k.remove(i % nk);
+        }
+        Edit::KeySigBit(b) => {
+            let rd = &mut k[nk].rdata;
+            let (_, len) = sig_signer(rd);
+            let start = 18 + len;
+            let b = b % ((rd.len() - start) * 8);
+            rd[start + b / 8] ^= 0x80 >> (b % 8);
+        }
+        Edit::KeySigRemove => {
+            k.pop();
+        }
+        Edit::KeyResponseError => drop_keys = true,
+        Edit::TargetMsgBit(b) => s.target_bit = Some(*b),
+        Edit::KeyMsgBit(b) => s.key_bit = Some(*b),
+    }
+    s.target = t;
+    s.keys = if drop_keys { None } else { Some(k) };
+    s
+}
+
+fn edit_family(e: &Edit) -> &'static str {
+    match e {
+        Edit::None => "genuine",
+        Edit::RecOwnerCase(_) | Edit::RecTtl(..) | Edit::SigTtl(_) | Edit::SigOwnerCase(_) | Edit::SigSignerCase(_) | Edit::KeyOwnerCase(_) | Edit::KeyTtl(..) | Edit::RecReverse => {
+            "edit:unsigned-octets(case/ttl/order)"
+        }
+        Edit::RecOwnerOctet(..) | Edit::AllOwnerOctet(..) => "edit:owner",
+        Edit::RecClass(..) | Edit::RecType(..) => "edit:record-class/type",
+        Edit::RecRdataBit(..) => "edit:rdata-bit",
+        Edit::RecAdd(_) | Edit::RecRemove(_) | Edit::RecDup(_) => "edit:add/remove/duplicate-rr",
+        Edit::SigTypeCovered(_) | Edit::SigAlg(_) | Edit::SigLabels(_) | Edit::SigOrigTtl(_) | Edit::SigKeyTag(_) | Edit::SigSignerOctet(..) | Edit::SigClass(_) => "edit:rrsig-field",
+        Edit::SigExpiration(_) | Edit::SigInception(_) => "edit:rrsig-times",
+        Edit::SigBit(_) | Edit::SigTruncate(_) | Edit::SigExtend(_) => "edit:signature-octets",
+        Edit::SigRemove | Edit::SigDup | Edit::SigGarbageFirst => "edit:rrsig-count",
+        Edit::KeyFlags(..) | Edit::KeyProtocol(..) | Edit::KeyAlg(..) | Edit::KeyClass(..) => "edit:dnskey-field",
+        Edit::KeyBit(..) => "edit:dnskey-key-bit",
+        Edit::KeyOwnerOctet(..) => "edit:dnskey-owner",
+        Edit::KeyAddUnrelated(_) | Edit::KeyRemove(_) => "edit:dnskey-add/remove",
+        Edit::KeySigBit(_) | Edit::KeySigRemove | Edit::KeyResponseError => "edit:dnskey-rrsig/response",
+        Edit::TargetMsgBit(_) => "edit:answer-message-bit",
+        Edit::KeyMsgBit(_) => "edit:dnskey-message-bit",
+    }
+}
+
+// ---------------------------------------------------------------------------------------------
+// scripted upstream
+
+#[derive(Default)]
+struct UpState {
+    zone: Vec<Vec<u8>>,
+    owner: Vec<Vec<u8>>,
+    rtype: u16,
+    target_msg: Vec<u8>,
+    key_msg: Option<Vec<u8>>,
+    /// (name, type) of every query received
+    log: Vec<(String, u16)>,
+}
+
+#[derive(Clone)]
+struct Upstream(Arc<Mutex<UpState>>);
+
+impl DnsHandle for Upstream {
+    type Response = stream::Once<future::Ready<Result<DnsResponse, NetError>>>;
+    type Runtime = SimRt;
+
+    fn send(&self, request: DnsRequest) -> Self::Response {
+        let mut st = self.0.lock().unwrap();
+        let res = match request.queries.first() {
+            None => Err(NetError::from("no question")),
+            Some(q) => {
+                let qn: Vec<Vec<u8>> = q.name.iter().map(|l| l.to_vec()).collect();
+                let qt = u16::from(q.query_type);
+                st.log.push((canon::show(&qn), qt));
+                let bytes = if qt == T_DNSKEY && canon::name_eq(&qn, &st.zone) {
+                    st.key_msg.clone()
+                } else if qt == st.rtype && canon::name_eq(&qn, &st.owner) {
+                    Some(st.target_msg.clone())
+                } else {
+                    None
+                };
+                match bytes {
+                    // what a client connection does with the datagram it received
+                    Some(b) => DnsResponse::from_buffer(b).map_err(NetError::from),
+                    None => Err(NetError::from("scripted upstream: no data for this question (SERVFAIL)")),
+                }
+            }
+        };
+        stream::once(future::ready(res))
+    }
+}
+
+fn flip_answer_bit(msg: &mut [u8], start: usize, bit: usize) {
+    let span = msg.len() - start;
+    if span == 0 {
+        return;
+    }
+    let b = bit % (span * 8);
+    msg[start + b / 8] ^= 0x80 >> (b % 8);
+}
+
+// ---------------------------------------------------------------------------------------------
+// histories
+
+#[derive(Clone, Debug, Serialize, Deserialize)]
+enum Delta {
+    Secs(u32),
+    /// move the clock to inception + k (if that lies ahead)
+    ToInception(i8),
+    /// move the clock to expiration + k (if that lies ahead)
+    ToExpiration(i8),
+    /// served TTL + k seconds
+    Ttl(i8),
+    /// DNSKEY TTL + k seconds
+    KeyTtl(i8),
+}
+
+fn delta() -> impl Strategy<Value = Delta> {
+    prop_oneof![
+        2 => Just(Delta::Secs(0)),
+        2 => Just(Delta::Secs(1)),
+        2 => (2u32..600).prop_map(Delta::Secs),
+        1 => (600u32..200_000).prop_map(Delta::Secs),
+        2 => (-1i8..=1).prop_map(Delta::ToInception),
+        6 => (-1i8..=2).prop_map(Delta::ToExpiration),
+        3 => (-1i8..=1).prop_map(Delta::Ttl),
+        1 => (-1i8..=1).prop_map(Delta::KeyTtl),
+    ]
+}
+
+#[derive(Clone, Debug, Serialize, Deserialize)]
+struct Step {
+    advance: Delta,
+    edit: Edit,
+}
+
+#[derive(Clone, Debug, Serialize, Deserialize)]
+struct Case {
+    scenario: Scenario,
+    /// edit of the DNSKEY response in force during the whole history (so that a cached DNSKEY
+    /// verdict always refers to what the upstream still serves)
+    #[serde(default = "no_edit")]
+    key_edit: Edit,
+    steps: Vec<Step>,
+}
+
+fn no_edit() -> Edit {
+    Edit::None
+}
+
+fn single_case() -> impl Strategy<Value = Case> {
+    (scenario(), prop_oneof![1 => Just(Edit::None), 5 => edit()]).prop_map(|(scenario, edit)| Case {
+        scenario,
+        key_edit: Edit::None,
+        steps: vec![Step {
+            advance: Delta::Secs(0),
+            edit,
+        }],
+    })
+}
+
+fn history_case(tier: Tier) -> impl Strategy<Value = Case> {
+    let max = tier.pick(6, 9) as usize;
+    // histories revisit few distinct variants so that cached verdicts are hit
+    (
+        scenario(),
+        prop_oneof![4 => Just(Edit::None), 1 => key_edit()],
+        vec(target_edit(), 0..=2),
+        vec((delta(), 0usize..4), 2..=max),
+    )
+        .prop_map(|(mut scenario, key_edit, edits, steps)| {
+            // a history is only interesting while the window is still ahead or open: signatures
+            // that are already expired at the start get their window moved forward
+            if scenario.exp_off < 0 {
+                let len = (scenario.exp_off - scenario.inc_off).clamp(0, 1 << 30);
+                scenario.exp_off = scenario.exp_off.rem_euclid(5_000);
+                scenario.inc_off = scenario.exp_off - len;
+            }
+            if scenario.kexp_off < 0 {
+                let len = (scenario.kexp_off - scenario.kinc_off).clamp(0, 1 << 30);
+                scenario.kexp_off = scenario.kexp_off.rem_euclid(5_000);
+                scenario.kinc_off = scenario.kexp_off - len;
+            }
+            Case {
+        scenario,
+        key_edit,
+        steps: steps
+            .into_iter()
+            .map(|(advance, sel)| Step {
+                advance,
+                edit: if sel >= 2 && sel - 2 < edits.len() { edits[sel - 2].clone() } else { Edit::None },
+            })
+            .collect(),
+            }
+        })
+}
+
+fn secure_records(res: &Result<DnsResponse, NetError>) -> (Vec<Record>, &'static str) {
+    match res {
+        Ok(r) => (r.answers.clone(), "ok"),
+        Err(NetError::Dns(DnsError::Nsec { response, .. })) => (response.answers.clone(), "nsec-error"),
+        Err(_) => (vec![], "error"),
+    }
+}
+
+/// What the validation cache key sees of one RRset of a response: owner and embedded names
+/// case-folded, TTLs left out; members and the RRSIGs covering them (order-insensitive here).
+fn cache_view(msg: &[u8], owner: &[Vec<u8>], rtype: u16) -> Option<u64> {
+    let rrs = w::parse_answers(msg)?;
+    let mut parts: Vec<Vec<u8>> = Vec::new();
+    for r in rrs.iter().filter(|r| canon::name_eq(&r.owner, owner)) {
+        let rd = &msg[r.rdata_at..r.rdata_at + r.rdlen];
+        let mut p = Vec::new();
+        if r.rtype == rtype {
+            p.push(0);
+            p.extend_from_slice(&r.class.to_be_bytes());
+            p.extend(w::canonical_from_wire(msg, r).unwrap_or_else(|| rd.to_vec()));
+        } else if r.rtype == T_RRSIG && rd.len() >= 19 && u16::from_be_bytes([rd[0], rd[1]]) == rtype {
+            p.push(1);
+            p.extend_from_slice(&r.class.to_be_bytes());
+            p.extend_from_slice(&rd[..18]);
+            match w::read_name(msg, r.rdata_at + 18) {
+                Some((signer, end)) if end <= r.rdata_at + r.rdlen => {
+                    w::put_name(&mut p, &signer, true);
+                    p.extend_from_slice(&msg[end..r.rdata_at + r.rdlen]);
+                }
+                _ => p.extend_from_slice(&rd[18..]),
+            }
+        } else {
+            continue;
+        }
+        parts.push(p);
+    }
+    parts.sort();
+    let refs: Vec<&[u8]> = parts.iter().map(|p| p.as_slice()).collect();
+    Some(crate::core::fixed_hash(&refs))
+}
+
+fn describe(s: &Scenario, g: &Genuine) -> String {
+    format!(
+        "{} type {} x{} ttl {} zone {} signer {:?} flags {} ksk {:?} window [now0{:+}, now0{:+}] now0 {}",
+        g.owner.show(),
+        g.rtype,
+        s.rdatas.len(),
+        s.ttl,
+        s.zone.show(),
+        s.signer,
+        s.signer_flags,
+        s.ksk,
+        s.inc_off,
+        s.exp_off,
+        s.now0
+    )
+}
+
+fn run(c: &Case, rec: &mut Rec) -> CaseResult {
+    let s = &c.scenario;
+    let g = build(s);
+    let _clock = clock::VirtualClock::start(s.now0);
+    let up = Upstream(Arc::new(Mutex::new(UpState {
+        zone: s.zone.labels.clone(),
+        owner: g.owner.labels.clone(),
+        rtype: g.rtype,
+        ..Default::default()
+    })));
+    let mut anchors = TrustAnchors::empty();
+    anchors.insert(&PublicKeyBuf::new(g.anchor.key.clone(), Algorithm::from_u8(g.anchor.alg)));
+    let handle = DnssecDnsHandle::with_trust_anchor(up.clone(), Arc::new(anchors));
+    let query = Query::new(g.owner.to_name(), RecordType::from(g.rtype));
+
+    // what hickory can be expected to complete: genuine data, usable key, and a key layout its
+    // DNSKEY handling supports without a DS chain (anchor-only RRset, or the root zone)
+    // (hickory tries at most MAX_KEY_TAG_COLLISIONS = 2 keys per key tag — a deliberate KeyTrap
+    // limit — so more than one colliding sibling may legitimately hide the signer)
+    let layout_supported = (s.ksk.is_none() && s.colliders == 0) || (s.zone.labels.is_empty() && s.colliders <= 1);
+    let key_usable = s.signer_flags & 0x0100 != 0 && s.signer_flags & 0x0080 == 0;
+    rec.class(format!("alg:{}", s.signer.alg()));
+    rec.class(if s.ksk.is_some() { "keys:ksk+zsk" } else { "keys:csk" });
+    if s.colliders > 0 {
+        rec.class("keys:tag-collisions");
+    }
+    if !key_usable {
+        rec.class("signer-key:revoked-or-not-zone-key(genuinely-signed)");
+    }
+    if s.wildcard {
+        rec.class("genuine:wildcard-expanded");
+    }
+
+    // content hash -> (virtual nanos of the first validation, ttl hickory returned then)
+    // what the validation cache can hold: cache view of an RRset -> (virtual nanos, TTL returned)
+    // of every earlier step at which hickory and the reference both said Secure
+    let mut seen_rrsets: HashMap<u64, Vec<(u64, u32)>> = HashMap::new();
+    // cache view of the DNSKEY RRset -> virtual nanos at which it first served a Secure verdict
+    let mut seen_keys: HashMap<u64, u64> = HashMap::new();
+    let mut any_nt = false;
+    let mut trace: Vec<String> = Vec::new();
+    for (i, step) in c.steps.iter().enumerate() {
+        // ---- clock: wall and monotonic move together
+        let now64 = clock::virtual_unix_secs();
+        let now32 = now64 as u32;
+        let ahead = |target: u32| {
+            let d = target.wrapping_sub(now32);
+            if d < (1 << 31) {
+                d as u64
+            } else {
+                0
+            }
+        };
+        let adv = match &step.advance {
+            Delta::Secs(d) => *d as u64,
+            Delta::ToInception(k) => ahead(g.sig.inception.wrapping_add(*k as i32 as u32)),
+            Delta::ToExpiration(k) => ahead(g.sig.expiration.wrapping_add(*k as i32 as u32)),
+            Delta::Ttl(k) => (s.ttl as i64 + *k as i64).max(0) as u64,
+            Delta::KeyTtl(k) => (s.dnskey_ttl as i64 + *k as i64).max(0) as u64,
+        };
+        // keep the virtual nanosecond counter far from u64 overflow
+        let adv = adv.min((1u64 << 33).saturating_sub(clock::virtual_nanos() / 1_000_000_000));
+        clock::advance_virtual(Duration::from_secs(adv));
+        let now = clock::virtual_unix_secs() as u32;
+        let elapsed = clock::virtual_nanos() / 1_000_000_000;
+
+        // ---- what the upstream serves now
+        let mut served = apply(&g, &step.edit);
+        if c.key_edit != Edit::None {
+            let k = apply(&g, &c.key_edit);
+            served.keys = k.keys;
+            served.key_bit = k.key_bit;
+        }
+        if s.upstream_ages_ttl {
+            let age = |ttl: u32| if ttl == 0 { 0 } else { ttl - (elapsed % (ttl as u64 + 1)) as u32 };
+            for r in served.target.iter_mut() {
+                r.ttl = age(r.ttl);
+            }
+            if let Some(k) = served.keys.as_mut() {
+                for r in k.iter_mut() {
+                    r.ttl = age(r.ttl);
+                }
+            }
+        }
+        let (mut tmsg, tstart) = w::response_message(0x1234, &g.owner.labels, g.rtype, &served.target);
+        if let Some(b) = served.target_bit {
+            flip_answer_bit(&mut tmsg, tstart, b);
+        }
+        let kmsg = served.keys.as_ref().map(|k| {
+            let (mut m, start) = w::response_message(0x4321, &s.zone.labels, T_DNSKEY, k);
+            if let Some(b) = served.key_bit {
+                flip_answer_bit(&mut m, start, b);
+            }
+            m
+        });
+        {
+            let mut st = up.0.lock().unwrap();
+            st.target_msg = tmsg.clone();
+            st.key_msg = kmsg.clone();
+            st.log.clear();
+        }
+
+        // ---- the validator
+        let res = match crate::core::catch(|| {
+            futures_executor::block_on(handle.lookup(query.clone(), DnsRequestOptions::default()).first_answer())
+        }) {
+            Ok(r) => r,
+            Err(p) => {
+                // one recognised cause: an RRSIG covering DNSKEY arrives without any DNSKEY RR of
+                // that owner, `verify_dnskey_rrset` then pops from an empty proof list
+                let orphan = |msg: &[u8]| {
+                    w::parse_answers(msg).is_some_and(|rrs| {
+                        rrs.iter().any(|r| {
+                            r.rtype == T_RRSIG
+                                && r.rdlen >= 2
+                                && u16::from_be_bytes([msg[r.rdata_at], msg[r.rdata_at + 1]]) == T_DNSKEY
+                                && !rrs.iter().any(|k| k.rtype == T_DNSKEY && canon::name_eq(&k.owner, &r.owner))
+                        })
+                    })
+                };
+                if p.1.contains("dnssec/mod.rs") && p.0.contains("Option::unwrap()") && (orphan(&tmsg) || kmsg.as_deref().is_some_and(orphan)) {
+                    vfail!(
+                        "panic-on-rrsig-covering-dnskey-without-dnskey-rr",
+                        "step {i} {:?} {}: validator panicked at {}: {} — the response holds an RRSIG with Type Covered = DNSKEY but no DNSKEY RR of that owner",
+                        step.edit,
+                        describe(s, &g),
+                        p.1,
+                        p.0
+                    );
+                }
+                return Err(crate::core::panic_fail(&p));
+            }
+        };
+        let (records, outcome) = secure_records(&res);
+
+        // ---- the reference
+        let reference = Reference::new(&tmsg, kmsg.as_deref(), &s.zone.labels, std::slice::from_ref(&g.anchor), now);
+        let main = reference.rrset(&tmsg, &g.owner.labels, g.rtype, now, true);
+        let main_notime = reference.rrset(&tmsg, &g.owner.labels, g.rtype, now, false);
+        let win = tbs_ref::in_window(g.sig.inception, g.sig.expiration, now);
+        let edge = [g.sig.inception, g.sig.expiration]
+            .iter()
+            .any(|e| [0u32, 1, u32::MAX].iter().any(|d| now == e.wrapping_add(*d)));
+        let main_view = cache_view(&tmsg, &g.owner.labels, g.rtype);
+        let main_repeat = main_view.is_some_and(|h| seen_rrsets.contains_key(&h));
+        let key_view = kmsg.as_deref().and_then(|m| cache_view(m, &s.zone.labels, T_DNSKEY));
+        let key_repeat = key_view.and_then(|h| seen_keys.get(&h).copied());
+
+        let mut step_secure = false;
+        let mut secure_ttl = 0u32;
+        let mut newly_seen: Vec<(u64, u32)> = Vec::new();
+        for r in &records {
+            if r.proof != Proof::Secure {
+                continue;
+            }
+            let owner: Vec<Vec<u8>> = r.name.iter().map(|l| l.to_vec()).collect();
+            let rtype = match &r.data {
+                RData::DNSSEC(DNSSECRData::RRSIG(sig)) => u16::from(sig.input().type_covered),
+                _ => u16::from(r.record_type()),
+            };
+            let v = reference.rrset(&tmsg, &owner, rtype, now, true);
+            let view = cache_view(&tmsg, &owner, rtype);
+            let earlier: Vec<(u64, u32)> = view.and_then(|h| seen_rrsets.get(&h).cloned()).unwrap_or_default();
+            let what = format!(
+                "step {i} (+{adv}s, now {now}, {:?}) {}: {} type {rtype} returned Secure with TTL {}",
+                step.edit,
+                describe(s, &g),
+                canon::show(&owner),
+                r.ttl
+            );
+            match v.verdict {
+                Verdict::Undefined => rec.class("secure-at-rfc1982-undefined-distance"),
+                Verdict::NotSecure => {
+                    let notime = reference.rrset(&tmsg, &owner, rtype, now, false);
+                    if notime.verdict == Verdict::Secure {
+                        // only the clock speaks against it: the RRset's own RRSIG window, or the
+                        // window of the RRSIG over the DNSKEY RRset (cached DNSKEY verdict)
+                        let own_window_ok = reference.rrset2(&tmsg, &owner, rtype, now, true, false).verdict == Verdict::Secure;
+                        let cached_at = if own_window_ok { key_repeat.or(earlier.first().map(|e| e.0)) } else { earlier.first().map(|e| e.0) };
+                        if let Some(t0) = cached_at {
+                            let age = (clock::virtual_nanos() - t0) / 1_000_000_000;
+                            vfail!(
+                                "cached-verdict-outlives-signature-window",
+                                "{what}; reference: {} — the same response was validated {age}s earlier inside the window, the verdict was cached for the record TTL, not for min(TTL, remaining signature lifetime)",
+                                v.why
+                            );
+                        }
+                        vfail!("secure-outside-validity-window", "{what}; reference: {} (inception {} expiration {})", v.why, g.sig.inception, g.sig.expiration);
+                    }
+                    vfail!("secure-but-reference-rejects", "{what}; reference: {}", v.why);
+                }
+                Verdict::Secure => {
+                    // RFC 4035 §5.3.3 / the property: TTL <= min(Original TTL, expiration - now)
+                    let bound = v.max_ttl.unwrap_or(0);
+                    if r.ttl > bound {
+                        // the very TTL value handed out for the same content at an earlier step
+                        if let Some((t0, _)) = earlier.iter().rev().find(|(_, ttl0)| *ttl0 == r.ttl) {
+                            let age = (clock::virtual_nanos() - t0) / 1_000_000_000;
+                            vfail!(
+                                "cached-ttl-exceeds-remaining-signature-lifetime",
+                                "{what}, bound min(OrigTTL, expiration-now) = {bound}; the TTL computed {age}s earlier is served from the validation cache unchanged"
+                            );
+                        }
+                        vfail!("ttl-exceeds-signature-lifetime-or-original-ttl", "{what}, bound min(OrigTTL, expiration-now) = {bound}");
+                    }
+                    if let Some(h) = view {
+                        newly_seen.push((h, r.ttl));
+                    }
+                    if rtype == g.rtype && canon::name_eq(&owner, &g.owner.labels) {
+                        step_secure = true;
+                        secure_ttl = secure_ttl.max(r.ttl);
+                    }
+                }
+            }
+        }
+
+        // ---- completeness: the genuine response, first seen by a fresh validator, inside the
+        // window, with a usable key in a supported layout
+        // (and the RRSIG over the DNSKEY RRset valid, so that the key set itself is authenticated)
+        let key_window_ok = tbs_ref::in_window(off(s.now0, s.kinc_off), off(s.now0, s.kexp_off), now) == Window::Inside;
+        if i == 0 && step.edit == Edit::None && c.key_edit == Edit::None && layout_supported && key_window_ok && !s.wildcard && main.verdict == Verdict::Secure {
+            rec.class("completeness-asserted");
+            vensure!(
+                step_secure && outcome == "ok",
+                "genuine-response-not-secure",
+                "step 0 {}: reference says Secure (TTL bound {:?}) but hickory returned {outcome} {:?}; upstream saw {:?}",
+                describe(s, &g),
+                main.max_ttl,
+                res.as_ref().map(|r| r.answers.iter().map(|a| (a.record_type(), a.proof, a.ttl)).collect::<Vec<_>>()).map_err(|e| e.to_string()),
+                up.0.lock().unwrap().log
+            );
+        }
+        for (h, ttl) in newly_seen {
+            seen_rrsets.entry(h).or_default().push((clock::virtual_nanos(), ttl));
+        }
+        // the DNSKEY RRset was fetched and is valid now: its Secure verdict may sit in the cache
+        let fetched_keys = up.0.lock().unwrap().log.iter().any(|(_, t)| *t == T_DNSKEY);
+        if (fetched_keys && reference.key_set_trusted()) || (step_secure && main.verdict == Verdict::Secure) {
+            if let Some(h) = key_view {
+                seen_keys.entry(h).or_insert(clock::virtual_nanos());
+            }
+        }
+
+        // ---- accounting
+        let fam = edit_family(&step.edit);
+        if c.steps.len() == 1 {
+            rec.class(fam);
+            rec.class(format!(
+                "clock:{}",
+                match (win, edge) {
+                    (_, true) => "within-1s-of-window-edge",
+                    (Window::Inside, _) => "inside",
+                    (Window::Outside, _) => "outside",
+                    (Window::Undefined, _) => "rfc1982-undefined",
+                }
+            ));
+            if s.now0 as u32 > now || g.sig.inception > g.sig.expiration {
+                rec.class("u32-wrap-involved");
+            }
+        }
+        let verdict_class = match (main.verdict, step_secure) {
+            (Verdict::Secure, true) => "ref-secure/hickory-secure",
+            (Verdict::Secure, false) => "ref-secure/hickory-not-secure",
+            (Verdict::Undefined, _) => "ref-undefined",
+            (Verdict::NotSecure, _) if main_notime.verdict == Verdict::Secure => "ref-rejects:time-only",
+            (Verdict::NotSecure, _) => "ref-rejects:content",
+        };
+        rec.class(format!("verdict:{verdict_class}"));
+        if step.edit != Edit::None && main.verdict == Verdict::Secure {
+            rec.class("edit-leaves-signed-octets-intact(stays-secure)");
+        }
+        if s.foreign_owner.is_some() && step_secure {
+            rec.count("secure-although-signer-is-not-an-ancestor-of-the-owner(RFC4035-5.3.1-bullet-2,outside-property-text)", 1);
+        }
+        if main_repeat {
+            rec.class("step:repeat-of-validated-content(cache-hit-candidate)");
+        }
+        rec.count("validations", 1);
+        // NT rule of DESIGN §7 C06
+        let differs_in_signed_bit = step.edit != Edit::None && main_notime.verdict != Verdict::Secure;
+        if differs_in_signed_bit || edge || main_repeat {
+            any_nt = true;
+        }
+        trace.push(format!("+{adv}s {:?} -> ref {:?}/{} hickory {}{}", step.edit, main.verdict, main.why, outcome, if step_secure { format!(" Secure ttl {secure_ttl}") } else { String::new() }));
+    }
+    if any_nt {
+        rec.nontrivial();
+        if rec.wants_note() {
+            rec.note(format!("{} :: {}", describe(s, &g), trace.join(" ; ")));
+        }
+    }
+    Ok(())
+}
+
+// ---------------------------------------------------------------------------------------------
+// small-scope sweep: every bit of both answer sections, and every clock value around the window
+// edges, for a few fixed scenarios
+
+#[derive(Clone, Debug, Serialize, Deserialize)]
+struct SweepCase {
+    scenario: usize,
+    edit: Edit,
+    /// clock = inception + at (wrapping)
+    at: i64,
+}
+
+fn fixed_scenarios() -> Vec<Scenario> {
+    let n = |s: &str| MName::fq(s.split('.').filter(|l| !l.is_empty()).map(|l| l.as_bytes().to_vec()).collect());
+    let base = Scenario {
+        zone: n("example"),
+        owner_rel: vec![b"www".to_vec()],
+        foreign_owner: None,
+        rdatas: vec![MRdata::A(vec![192, 0, 2, 1]), MRdata::A(vec![192, 0, 2, 2])],
+        ttl: 300,
+        orig_extra: 3300,
+        rrsig_ttl: 300,
+        dnskey_ttl: 600,
+        signer: KeyId::Seed(7),
+        signer_flags: 257,
+        ksk: None,
+        colliders: 0,
+        colliders_first: false,
+        wildcard: false,
+        inc_off: 0,
+        exp_off: 1000,
+        kinc_off: 0,
+        kexp_off: 1000,
+        now0: 1_700_000_000,
+        upstream_ages_ttl: false,
+    };
+    vec![
+        base.clone(),
+        // window and clock straddle the u32 wrap; root zone with KSK + ZSK; NS with a mixed-case name
+        Scenario {
+            zone: n(""),
+            owner_rel: vec![b"Sub".to_vec()],
+            rdatas: vec![MRdata::Ns(n("NS1.Example"))],
+            signer: KeyId::Seed(8),
+            signer_flags: 256,
+            ksk: Some(KeyId::Seed(9)),
+            now0: (1u64 << 32) - 500,
+            ..base.clone()
+        },
+        Scenario {
+            rdatas: vec![MRdata::Mx {
+                pref: 10,
+                exchange: n("mail.example"),
+            }],
+            signer: KeyId::Fixture(tbs_ref::ALG_ECDSAP256),
+            signer_flags: 256,
+            ..base.clone()
+        },
+        Scenario {
+            rdatas: vec![MRdata::Txt(vec![b"v=1".to_vec()])],
+            signer: KeyId::Fixture(tbs_ref::ALG_RSASHA256),
+            ..base.clone()
+        },
+    ]
+}
+
+fn sweep_cases(env: &Env) -> (Box<dyn Iterator<Item = SweepCase> + Send>, bool) {
+    let scen = fixed_scenarios();
+    let count = match env.tier {
+        Tier::Quick => 2,
+        Tier::Thorough => scen.len(),
+    };
+    let mut out = Vec::new();
+    for (si, s) in scen.iter().enumerate().take(count) {
+        let g = build(s);
+        let (tmsg, tstart) = w::response_message(0, &g.owner.labels, g.rtype, &g.target);
+        let (kmsg, kstart) = w::response_message(0, &s.zone.labels, T_DNSKEY, &g.keys);
+        for b in 0..(tmsg.len() - tstart) * 8 {
+            out.push(SweepCase {
+                scenario: si,
+                edit: Edit::TargetMsgBit(b),
+                at: 500,
+            });
+        }
+        for b in 0..(kmsg.len() - kstart) * 8 {
+            out.push(SweepCase {
+                scenario: si,
+                edit: Edit::KeyMsgBit(b),
+                at: 500,
+            });
+        }
+        // every clock value around both edges and around the RFC 1982 half-way points
+        let len = s.exp_off - s.inc_off;
+        let mut ats: Vec<i64> = (-3..=3).chain(len - 3..=len + 3).collect();
+        for h in [1i64 << 31, -(1i64 << 31)] {
+            ats.extend((h - 2..=h + 2).map(|x| x));
+            ats.extend((len + h - 2..=len + h + 2).map(|x| x));
+        }
+        for at in ats {
+            out.push(SweepCase {
+                scenario: si,
+                edit: Edit::None,
+                at,
+            });
+        }
+    }
+    (Box::new(out.into_iter()), true)
+}
+
+fn sweep_body(c: &SweepCase, rec: &mut Rec) -> CaseResult {
+    let mut s = fixed_scenarios().swap_remove(c.scenario);
+    // place the clock: now0' = inception + at, window unchanged in absolute terms
+    let inception = (s.now0 as i64 + s.inc_off) as u64 as i64;
+    let new_now0 = (inception + c.at).rem_euclid(1i64 << 33).max(0) as u64;
+    let shift = new_now0 as i64 - s.now0 as i64;
+    s.inc_off -= shift;
+    s.exp_off -= shift;
+    s.kinc_off -= shift;
+    s.kexp_off -= shift;
+    s.now0 = new_now0;
+    let case = Case {
+        scenario: s,
+        key_edit: Edit::None,
+        steps: vec![Step {
+            advance: Delta::Secs(0),
+            edit: c.edit.clone(),
+        }],
+    };
+    rec.class(format!("scenario:{}", c.scenario));
+    run(&case, rec)
+}
 
 pub fn check() -> Option<Check> {
-    None
+    let single = prop("single_validation", 30_000, 1_000_000, |_| single_case(), run);
+    let histories = prop("histories", 3_000, 100_000, history_case, run);
+    let sweep = enumerate("bit_and_clock_sweep", sweep_cases, sweep_body);
+    Some(Check {
+        id: "C06",
+        level: "exploration",
+        rule: "scenario = zone (root / 1-2 labels, mixed case) + owner + RRset (A, AAAA, TXT, NS, MX; 1-3 members) signed with ring over the reference octets by an \
+               Ed25519 (seeded or fixture), ECDSA P-256/P-384 or RSA/SHA-256/512 key whose DNSKEY is the trust anchor (or a ZSK under an anchored KSK), incl. \
+               genuinely signing keys with the zone bit clear / revoke bit set / reserved bits set, key-tag colliding sibling keys, wildcard-expanded answers; validity \
+               window placed around the clock (edges +-2 s, inside, far outside, +-2^31 distances, windows and clocks straddling the u32 wrap). Variant = genuine or one \
+               edit out of 45 kinds (owner/class/type/TTL/RDATA bit/add/remove/duplicate RR; each RRSIG field as XOR mask, signature bit/length, RRSIG count/owner/class/TTL; \
+               DNSKEY flags/protocol/algorithm/key bit/owner/class/TTL, add/remove key, DNSKEY RRSIG bit/removal, failing DNSKEY lookup; any bit of either answer section). \
+               single_validation: one variant on a fresh validator; histories: 2-6 (advance, variant) steps on one handle (advance in {0,1,s, to inception/expiration +-1, TTL +-1}), \
+               upstream either authoritative (constant TTLs) or a cache (TTLs count down); bit_and_clock_sweep: every answer-section bit of both responses and every clock \
+               value within 3 s of both window edges and of the RFC 1982 half-way points, for fixed scenarios. Non-trivial = distinct case AND (the variant differs from the genuine \
+               response in a signed octet (reference rejects it at any clock) OR the clock is within 1 s of a window edge OR a step repeats content already validated Secure (cache hit))",
+        assumptions: vec![
+            "trust anchor = public key + algorithm of the zone's (key-signing) key, as hickory's TrustAnchors stores it; DNSKEY flags are not part of the anchor",
+            "completeness is asserted only for the unedited response on a fresh validator, inside the window, non-wildcard, key usable, and a DNSKEY layout hickory can finish without a DS chain",
+            "RFC 4035 5.3.1 bullet 2 (signer name must be the zone containing the RRset) is not in the property text: observed and counted, not asserted",
+            "a clock exactly 2^31 s away from inception/expiration is undefined in RFC 1982: either verdict is accepted",
+            "wall clock and monotonic clock advance together; the clock never moves backwards",
+        ],
+        subs: vec![single, histories, sweep],
+    })
 }
